@@ -160,6 +160,7 @@ def run(ctx, rep):
     b4(F, rep)
     b5(F, rep)
     b6(F, rep)
+    b7(F, rep)
     # ---- B2 ---------------------------------------------------------------------------------------
     for en in ("CodecCorrection", "CodecMisprediction"):
         a = F.adts.get("preflate_rs::statistical_codec::" + en)
@@ -342,6 +343,41 @@ def b6(F, rep):
         rep.add("B6", "failure-construct-reviewed:%s|%s" % (short, kind), (short, kind) in T.ROWS, s["where"],
                 "reviewed: %s" % T.ROWS[(short, kind)][2] if (short, kind) in T.ROWS else "explicit failure construct in the codec that is not in the reviewed table")
     rep.floor("B6", "codec-failure-constructs", n, 4)
+
+
+def b7(F, rep):
+    """Bookkeeping inside the codec (statistics, default run, bypass-bit count) cannot abort a sequence in the stated domain:
+    every overflow-checked accumulation `x = x + y` in the codec modules adds a small amount per operation (upper bound of y at
+    most 2^16), so 2^16 or more operations are needed before the check can fire.  Summing *values* (up to 2^31 each) overflows
+    after three of them."""
+    from ..ub import UB, INF
+    U = UB(F)
+    n = 0
+    for name, b in sorted(F.bodies.items()):
+        if "preflate_rs::cabac_codec::" not in name and "preflate_rs::statistical_codec::" not in name:
+            continue
+        short = name.replace("preflate_rs::", "")
+        k = 0
+        for bb in sorted(b.normal_blocks()):
+            t = b.term(bb)
+            if t["k"] != "assert" or "Overflow" not in str(t.get("msg")):
+                continue
+            for s in b.stmts(bb):
+                r = s.get("r") or {}
+                if s.get("k") == "assign" and r.get("k") == "binop" and r["op"] in ("AddWithOverflow", "MulWithOverflow"):
+                    lp, rp = op_place(r["l"]), op_place(r["r"])
+                    # accumulation into a field of self / a counter: one operand is a field read
+                    fld = [p for p in (lp, rp) if p is not None and any(isinstance(e, dict) and "n" in e for e in p["p"])]
+                    oth = r["r"] if (lp in fld) else r["l"]
+                    if not fld:
+                        continue
+                    n += 1
+                    ub = U.operand(b, oth, at=bb)
+                    ok = ub != INF and ub <= (1 << 16)
+                    rep.add("B7", "small-step-accumulation:%s#%d" % (short, k), ok, b.where(bb),
+                            "%s with a step of at most %s" % (flow.describe_rvalue(b, r, names=False)[:120], ub))
+                    k += 1
+    rep.floor("B7", "accumulations-in-codec", n, 3)
 
 
 def _index_enum(U, b, op):
